@@ -159,7 +159,7 @@ func NewEnv(t *testing.T, cfg Config) *Env {
 	e := &Env{T: t, App: app, Ctx: ctx, acctAddr: map[int]sdk.AccAddress{}}
 	e.Mon.LastDeposit = map[int]*big.Int{}
 	e.ModAddr = authtypes.NewModuleAddress(types.ModuleName)
-	e.Msg = keeper.NewMsgServerImpl(app.AllianceKeeper)
+	e.Msg = routedMsgServer{app: app, direct: keeper.NewMsgServerImpl(app.AllianceKeeper)}
 	e.acctAddr[AccModule] = e.ModAddr
 	e.acctAddr[AccPool] = authtypes.NewModuleAddress(types.RewardsPoolName)
 	e.acctAddr[AccFee] = authtypes.NewModuleAddress(authtypes.FeeCollectorName)
